@@ -52,6 +52,12 @@ def _ord_of(it, a, b, what):
                 o = o.fields[0]
             if isinstance(o, Adt) and o.variant is not None and not o.fields:
                 return o.variant - 1
+    # opaque values the harness has an order model for (the two scripted keys of an entry-point table: their true order is an oracle)
+    h_ = getattr(it, "h", None)
+    if h_ is not None and hasattr(h_, "ident") and hasattr(h_, "cmp_ident"):
+        c_ = h_.cmp_ident(h_.ident(a), h_.ident(b))
+        if c_ is not None:
+            return c_
     raise Undecided("%s: ordering of %r and %r" % (what, a, b))
 
 
